@@ -910,7 +910,8 @@ Inductive case :=
               (st : stmt) (pre : option prepend_action) (default : disp) (* 12: with a real export policy *)
 | CHistory (x : ectx) (emax : N) (raddr : ipaddr) (cid : option N) (cs : list change) (probe : list N) (* 13 *)
 | CProcessRtc (x : ectx) (emax : N) (raddr : ipaddr) (cid : option N) (c : change) (e : emap) (probe : list N)
-              (accept_all : bool) (rts : list (list N)).                (* 14: with an RtcFilter *)
+              (accept_all : bool) (rts : list (list N))                 (* 14: with an RtcFilter *)
+| CRestale (old_best : option N) (any_from_addr : bool) (addr : ipaddr) (paths : list path). (* 15: restale_llgr's stream *)
 
 Definition run_case (c : case) : val :=
   match c with
@@ -942,4 +943,8 @@ Definition run_case (c : case) : val :=
   | CProcessRtc x emax raddr cid ch e probe acc rts =>
     v_res (fun r => VL [VList v_sinkop (fst r); v_emap (snd r) probe])
           (process_change_r x (with_rtc (rtc_allows acc rts) (lift_policy no_policy)) emax raddr cid ch e)
+  | CRestale old any addr paths =>
+    VList (fun c => VL [VB (c_best_changed c); VB (c_any_changed c); VOpt VN (c_replaced c);
+                        VNs (map p_lpid (c_paths c))])
+          (restale_llgr_changes IPV4_UNICAST 1 old any addr paths)
   end.
